@@ -13,6 +13,7 @@ from vlib.harness import V, derive_seed, run_shards
 from vlib.lib import call, mod
 
 PROPERTY = 'C12'
+AMBIENT_PASS = True        # the same search once more under unusual ambient settings (vlib.run.AMBIENT_SETTINGS)
 RULE = ('event = a code generated from the syntax tree of PAT_EVENT_CODE (half) or one of ~70 common codes / loose names '
         '("100m", "3000mW", lower case, weight-specific throws); text = half "plausible entry" (a duration derived from a '
         'drawn speed 0.3-12 m/s, a length around the record, a points total, rendered in many spellings: ss.xx, m:ss.xx, '
@@ -21,6 +22,7 @@ RULE = ('event = a code generated from the syntax tree of PAT_EVENT_CODE (half) 
         'oracle = output-validity predicate per family + exception-class clause + re-validation (idempotence); '
         'non-trivial = an ACCEPTED text with >= 2 fields or a separator rewrite (",", ";", colon<->stop); distinct '
         '(event, text, gender, prec)')
+RULE = RULE + '; the ulpc margin option spelled out, stricter and laxer (monotone in the margin, a field result within u x record)'
 ASSUMPTIONS = ['speed limits are the documented ones: 0.5..11 m/s up to 400 m, 0.5..10 m/s beyond (1e-9 slack); record x 1.2 for field',
                'events outside the three families the property names (fixed-duration, custom H/L, BAL/SPB) are only '
                'checked for the exception-class, string-type and idempotence clauses']
